@@ -229,7 +229,7 @@ def run(ctx):
 
     with ThreadPoolExecutor(max_workers=3) as ex:
         f_gen = [ex.submit(gen, f'MetaData.Gen_{tier}.cfg', gen_budget), ex.submit(gen, f'MetaData.Gendur_{tier}.cfg', gen_budget)]
-        f_sim = ex.submit(sim, f'MetaData.Sim_{tier}.cfg', 320 if quick else 800, 10 if quick else 16)
+        f_sim = ex.submit(sim, f'MetaData.Sim_{tier}.cfg', 240 if quick else 800, 10 if quick else 16)
         gens = []
         for f in f_gen:
             try:
